@@ -55,7 +55,7 @@ def fit(machine_, case):
 def data_arg(case):
     X = case["X"]
     if case.get("dask"):
-        return sut.dask_rows(X, case["chunks"])
+        return sut.dask_rows(X, case["chunks"], unknown=bool(case.get("unknown_chunks")))
     how = case.get("how", "plain")
     return sut.present(X, how)
 
@@ -75,6 +75,7 @@ def g_step(draw):
     c["chunks"] = gen.composition(draw, c["X"].shape[0])
     c["count_floor"] = gen.choice(draw, [EPS, EPS, 1e-6])
     c["how"] = gen.presentation_for(draw, c)
+    c["unknown_chunks"] = c["dask"] and gen.choice(draw, [False, False, True])
     return c
 
 
@@ -110,6 +111,7 @@ def g_traj(draw):
     c["K"] = gen.integer(draw, 2, 8 if gen.big() else 6)
     c["how"] = gen.presentation_for(draw, c)
     c["dask"] = gen.boolean(draw)
+    c["unknown_chunks"] = c["dask"] and gen.choice(draw, [False, False, True])
     c["isolate"], c["order_seed"] = gen.boolean(draw), gen.integer(draw, 0, 999)
     c["chunks"] = gen.composition(draw, c["X"].shape[0], max_parts=6)
     return c
@@ -166,6 +168,8 @@ def g_stop(draw):
     c["dask"] = gen.boolean(draw)
     c["isolate"], c["order_seed"] = gen.boolean(draw), gen.integer(draw, 0, 999)
     c["chunks"] = gen.composition(draw, c["X"].shape[0], max_parts=6)
+    # a Dask array whose shape and chunk sizes are unknown until computed (lazy boolean selection of the rows)
+    c["unknown_chunks"] = c["dask"] and gen.choice(draw, [False, False, True])
     return c
 
 
